@@ -1092,7 +1092,7 @@ func init() {
 		ID: "C14",
 		Profiles: []*Profile{
 			{Name: "c14-hostile", MinOps: 8, MaxOps: 45, MaxConns: 2, Versions: []string{"1.2.3", ""}, Prologue: 20,
-				W: weightsWith(map[string]int{"hostilereq": 40, "hostilehttp": 30, "badanswer": 8, "badreq": 6, "burst": 0, "auth": 2, "call": 4, "new": 2, "mutate": 2, "custom": 0, "silent": 0, "sysreset": 1, "qmutate": 0, "qevent": 1,
+				W: weightsWith(map[string]int{"hostilereq": 40, "hostilehttp": 30, "badanswer": 8, "badevent": 8, "badreq": 6, "burst": 0, "auth": 2, "call": 4, "new": 2, "mutate": 2, "custom": 0, "silent": 0, "sysreset": 1, "qmutate": 0, "qevent": 1,
 					"delete": 0, "reaccess": 0, "token": 1, "tokreset": 2, "httpget": 3, "httppost": 3, "subscribe": 8, "get": 3, "unsubscribe": 2, "close": 1, "connect": 3, "answer": 20}),
 				AccessOut: map[string]int{"grant": 14, "deny": 2},
 				GetOut:    map[string]int{"ok": 16, "notfound": 2},
